@@ -110,7 +110,19 @@ def gen_case(rng, thorough=False):
             parts[0] = gen_particle(rng, d, parts[0]["pid"])
     span = max(p["rows"][-1][0] - p["rows"][0][0] for p in parts)
     ml = rng.choice([1, 2, 3, max(1, span // 2), max(1, span - 1), max(1, span), span + 5, 100])
-    return dict(d=d, mpp=rng.choice(["1", "1", "1/2", "1/4", "2", "3/8", "5/32", "1/16777216", "3/33554432", "1024"]),
+    int_pos = None
+    if rng.random() < 0.15:
+        # whole-pixel positions held in an INTEGER column (uint16 pixel coordinates, int32 / int64), far
+        # enough apart for their squares to exceed the dtype; the conversion factor then is an int too
+        lo = min(x for p in parts for _, pos in p["rows"] for x in pos)
+        zoom = rng.choice([8, 40, 400])
+        for p in parts:
+            p["rows"] = [(f, [zoom * (x - lo) for x in pos]) for f, pos in p["rows"]]
+        hi = max(x for p in parts for _, pos in p["rows"] for x in pos) // 8
+        int_pos = rng.choice(["uint16", "int32", "int64"]) if hi < 60000 else rng.choice(["int32", "int64"])
+    return dict(d=d, int_pos=int_pos,
+                mpp=(rng.choice(["1", "1", "2", "3"]) if int_pos else
+                     rng.choice(["1", "1", "1/2", "1/4", "2", "3/8", "5/32", "1/16777216", "3/33554432", "1024"])),
                 fps=rng.choice(["1", "1", "2", "4", "1/2", "8", "24", "30"]),
                 max_lagtime=ml, particles=parts,
                 shuffle=None if rng.random() < 0.25 else rng.randint(0, 10 ** 6),
@@ -171,6 +183,11 @@ def close(impl, exact, rel, absslack=0):
 # ------------------------------------------------------------------------------------------
 # table construction / implementation runners
 
+def _mpp_arg(inp, mpp):
+    """microns per pixel as the caller writes it: an int for whole-pixel integer tables"""
+    return int(mpp) if inp.get("int_pos") and Fraction(mpp).denominator == 1 else float(mpp)
+
+
 def build_table(inp):
     import pandas as pd
     import random
@@ -188,6 +205,9 @@ def build_table(inp):
     if inp.get("shuffle") is not None:
         random.Random(inp["shuffle"]).shuffle(recs)
     df = pd.DataFrame(recs)
+    if inp.get("int_pos"):
+        for c in range(d):
+            df[COLNAMES[c]] = df[COLNAMES[c]].astype(inp["int_pos"])
     layout = inp.get("index", "range")
     if layout == "shuffled":
         lab = list(range(len(df)))
@@ -300,7 +320,7 @@ def run_case(ctx, inp):
         info = dict(oracle=orc, ok=True, cause=None, N={}, span=span, pairless=pairless)
         per[pid] = info
         try:
-            out = msd(sub, float(mpp), float(fps), ML, detail=True, pos_columns=pos_columns)
+            out = msd(sub, _mpp_arg(inp, mpp), float(fps), ML, detail=True, pos_columns=pos_columns)
         except Exception as e:  # the property says msd returns the statistic for every trajectory
             info["ok"] = False
             info["cause"] = "exception"
@@ -346,7 +366,7 @@ def run_case(ctx, inp):
             if bad and unsorted:
                 try:
                     out2 = msd(sub.sort_values("frame", kind="stable") if sub.index.name != "frame"
-                               else sub, float(mpp), float(fps), ML, detail=True,
+                               else sub, _mpp_arg(inp, mpp), float(fps), ML, detail=True,
                                pos_columns=pos_columns)
                     ok2 = all(close(fnum(out2["msd"].get(lag, float("nan"))), o["msd"], rel, slack)
                               for lag, o in orc.items())
@@ -452,7 +472,7 @@ def _check_ensemble(ctx, inp, res, df, per, hdr, cols, pos_columns, mpp, fps, ML
         c = cols.index(stat.strip("<>^2"))
         return o_["sqd"][c] if stat.endswith("^2>") else o_["disp"][c]
     try:
-        im = imsd(df, float(mpp), float(fps), ML, statistic=stat, pos_columns=pos_columns)
+        im = imsd(df, _mpp_arg(inp, mpp), float(fps), ML, statistic=stat, pos_columns=pos_columns)
     except Exception as e:
         im = None
         res.violation("property-violation", "imsd raised %s: %s" % (type(e).__name__, e),
@@ -511,7 +531,7 @@ def _check_ensemble(ctx, inp, res, df, per, hdr, cols, pos_columns, mpp, fps, ML
         return
     for detail in (True, False):
         try:
-            em = emsd(df, float(mpp), float(fps), ML, detail=detail, pos_columns=pos_columns)
+            em = emsd(df, _mpp_arg(inp, mpp), float(fps), ML, detail=detail, pos_columns=pos_columns)
         except Exception as e:
             res.violation("property-violation", "emsd(detail=%s) raised %s: %s"
                           % (detail, type(e).__name__, e), impl=repr(e),
